@@ -155,12 +155,15 @@ fn uper(api: &Api, input: &str, out: &mut Out) {
         }
         let devname = c.get("dev").and_then(|d| d.as_str()).unwrap_or("");
         if !devname.is_empty() && c.get("devbits").and_then(|b| b.as_array()).map(|b| !b.is_empty()).unwrap_or(false) {
-            // the deviation of this finding is predicted exactly (Impl(Dev)): the writer's bits are the predicted ones, and nothing
-            // but the two comparisons with the X.691 bits may differ
+            // the deviation of this finding is predicted exactly (Impl(Dev)): either the ideal behaviour, or the writer's bits are
+            // the predicted ones and nothing but the two comparisons with the X.691 bits differs; anything else is a violation
             let (db, dl) = image(&c["devbits"]);
             let exact = written.as_ref().map(|(b, l)| *l == dl && *b == db).unwrap_or(false);
             let other: Vec<String> = problems.iter().filter(|(cl, _)| cl != "bits" && cl != "read-reference").map(|(cl, t)| format!("{}: {}", cl, t)).collect();
-            if exact && other.is_empty() {
+            if problems.is_empty() {
+                // the behaviour of the ideal specification: fine as well (the finding is repaired, or does not show on this value)
+                bump("dev-class-ideal");
+            } else if exact && other.is_empty() {
                 bump(&format!("dev:{}", devname));
             } else {
                 bump("bad:dev-mismatch");
@@ -506,6 +509,7 @@ fn proto(api: &Api, input: &str, out: &mut Out, kv: &Kv) {
     let mut events = kv.get("events").map(|p| std::io::BufWriter::new(std::fs::OpenOptions::new().create(true).append(true).open(p).expect("events file")));
     let mut stats: std::collections::BTreeMap<String, u64> = Default::default();
     let mut n = 0u64;
+    let mut previous: Option<(usize, Value)> = None;
     for (i, c) in read_lines(input) {
         if i < start {
             continue;
@@ -517,6 +521,7 @@ fn proto(api: &Api, input: &str, out: &mut Out, kv: &Kv) {
         progress.begin(i);
         let base = crate::alloc::reset_peak();
         let mut produced: Option<Vec<u8>> = None;
+        let prev = previous.take();
         let r = guarded(|| -> Result<Vec<u8>, (String, String)> {
             let mut w = ProtobufWriter::default();
             match (api.pwrite)(ti, v, &mut w) {
@@ -526,6 +531,21 @@ fn proto(api: &Api, input: &str, out: &mut Out, kv: &Kv) {
             }
             let bytes = w.as_bytes().to_vec();
             produced = Some(bytes.clone());
+            // a writer that has written another message before writes the same octets (messages are split by the caller at the
+            // number of octets written so far)
+            if let Some((pti, pv)) = &prev {
+                let mut w2 = ProtobufWriter::default();
+                if let Some(Ok(())) = (api.pwrite)(*pti, pv, &mut w2) {
+                    let l1 = w2.as_bytes().len();
+                    let second = match (api.pwrite)(ti, v, &mut w2) {
+                        Some(Ok(())) => w2.as_bytes()[l1..].to_vec(),
+                        other => return Err(("backends".into(), format!("a writer that wrote another message before fails: {:?}", other.map(|r| r.err().map(|e| format!("{:?}", e)))))),
+                    };
+                    if second != bytes {
+                        return Err(("backends".into(), format!("as second message of one writer the octets are {}, as first {}", hex(&second), hex(&bytes))));
+                    }
+                }
+            }
             // a reader on the writer itself sees the same message
             match (api.pread)(ti, &mut w.as_reader()) {
                 Ok(x) if x == *v || proto_eq(&x, v) => {}
@@ -582,6 +602,9 @@ fn proto(api: &Api, input: &str, out: &mut Out, kv: &Kv) {
                 let _ = writeln!(e, "{}", json!({"ti": ti, "v": v, "bytes": bytes}));
                 let _ = e.flush(); // the process may be ended by the watchdog at the next case
             }
+        }
+        if matches!(r, Ok(Ok(_))) && devname.is_empty() {
+            previous = Some((ti, v.clone()));
         }
         let problem = match r {
             Ok(Ok(bytes)) => {
